@@ -787,11 +787,13 @@ pub fn run(ctx: &Ctx) -> PropertyReport {
             }
         }
         if ctx.cfg.tier == crate::engine::Tier::Thorough {
-            // three threads, two operations each
+            // three threads: every triple of one-operation programs, and every triple in which one
+            // thread runs two operations (all schedules of all 2-2-2 triples would be ~10^10 executions)
+            let p1 = all_programs(1, &alphabet);
             let p2 = all_programs(2, &alphabet);
             for a in &p2 {
-                for b in &p2 {
-                    for c in &p2 {
+                for b in &p1 {
+                    for c in &p1 {
                         cases.push(ProgramSet { programs: vec![a.clone(), b.clone(), c.clone()] });
                     }
                 }
